@@ -510,25 +510,41 @@ func c18hObserve(d *DNSFilter, status int, instants []time.Time) (o *c18hObs) {
 	return o
 }
 
-func (o *c18hObs) coq(instants []time.Time) string {
-	days := make([]string, 7)
-	for i, dd := range o.days {
-		if dd == nil {
-			days[i] = vfOpt("bytes * bytes", false, "")
-		} else {
-			days[i] = vfOpt("bytes * bytes", true, vfPair(vfBytes(dd[0]), vfBytes(dd[1])))
+// coq prints the observation; the schedule part is left out when it is
+// textually the one of the previous observation.
+func (o *c18hObs) coq(prev *c18hObs) string {
+	sched := vfOpt("sched_obs", false, "")
+	same := prev != nil && prev.getOK && o.getOK && prev.zone == o.zone
+	for i := range o.days {
+		x, y := o.days[i], (*[2]string)(nil)
+		if prev != nil {
+			y = prev.days[i]
 		}
+		if (x == nil) != (y == nil) || (x != nil && *x != *y) {
+			same = false
+		}
+	}
+	if !same {
+		days := make([]string, 7)
+		for i, dd := range o.days {
+			if dd == nil {
+				days[i] = "None"
+			} else {
+				days[i] = "Some " + vfPair(vfBytes(dd[0]), vfBytes(dd[1]))
+			}
+		}
+		sched = vfOpt("sched_obs", true, vfPair(vfBytes(o.zone), vfList("text_day", days)))
 	}
 	probes := make([]string, len(o.probes))
 	for i, b := range o.probes {
-		probes[i] = "(" + vfZ(instants[i].UnixNano()) + ", " + vfZ(int64(o.offs[i])) + ", " + vfBool(b) + ")"
+		probes[i] = "(" + vfZ(int64(o.offs[i])) + ", " + vfBool(b) + ")"
 	}
 	app := vfOpt("list bytes", false, "")
 	if o.constWk && o.appKind != "" {
 		app = vfOpt("list bytes", true, c18hCoqIDs(o.applied))
 	}
-	return "(" + strings.Join([]string{vfZ(int64(o.status)), c18hCoqIDs(o.ids), vfBytes(o.zone),
-		vfList("text_day", days), vfList("Z * Z * bool", probes), app}, ", ") + ")"
+	return "(" + strings.Join([]string{vfZ(int64(o.status)), c18hCoqIDs(o.ids), sched,
+		vfList("Z * bool", probes), app}, ", ") + ")"
 }
 
 // c18hWall is the property's reading of "in effect at t": wall clock of t in
@@ -724,7 +740,7 @@ func c18hRunHistory(t *testing.T, out *vfOut, r *vfRand, in *c18hInit, ops []*c1
 	}
 	m, k := c18hMonitor(nil, nil, prev, instants)
 	fail(0, m, k)
-	obs0 := prev.coq(instants)
+	obs0 := prev.coq(nil)
 
 	known := map[string]bool{}
 	note := func(ids []string) {
@@ -795,7 +811,7 @@ func c18hRunHistory(t *testing.T, out *vfOut, r *vfRand, in *c18hInit, ops []*c1
 		if cur.constWk && cur.appKind != "" {
 			classes["http-apply-"+cur.appKind] = true
 		}
-		steps = append(steps, vfPair(op.coq, cur.coq(instants)))
+		steps = append(steps, vfPair(op.coq, cur.coq(prev)))
 		descOps = append(descOps, map[string]any{"req": method + " " + path, "body": op.body, "status": cur.status,
 			"get_zone": cur.zone, "get_ids": cur.ids, "get_days_ns": fmt.Sprint(cur.ranges), "contains": fmt.Sprint(cur.probes),
 			"applied": cur.applied, "pause_now": cur.appKind})
@@ -817,12 +833,14 @@ func c18hRunHistory(t *testing.T, out *vfOut, r *vfRand, in *c18hInit, ops []*c1
 	}
 	sort.Strings(cls)
 	ins := make([]string, len(instants))
+	insCoq := make([]string, len(instants))
 	for i, ti := range instants {
 		ins[i] = ti.Format(time.RFC3339Nano)
+		insCoq[i] = vfZ(ti.UnixNano())
 	}
 	c := vfCase{
 		Coq: vfApp("C18.CHttp", c18hCoqIDs(kn), c18hCoqIDs(in.ids), vfBytes(in.zone), vfList("Z * Z", initDays),
-			obs0, vfList("op * http_obs", steps)),
+			vfList("Z", insCoq), obs0, vfList("op * http_obs", steps)),
 		Nontrivial: nontrivial, Classes: cls,
 		MonitorOK: monMsg == "", MonitorMsg: monMsg, FindingKey: monKey,
 		Desc: map[string]any{"kind": "http-history", "init": in.how, "init_doc": in.doc, "init_zone": in.zone,
@@ -1015,7 +1033,7 @@ func TestVerifC18(t *testing.T) {
 
 	// ---- random histories
 	rnd := vfNewRand(out.Seed).Fork(18)
-	n := out.Scale(160, 4000)
+	n := out.Scale(130, 4000)
 	for i := 0; i < n; i++ {
 		r := rnd.Fork(uint64(i))
 		in := c18hRandInit(r, pool)
